@@ -447,8 +447,79 @@ class Expander:
             ast.fix_missing_locations(m.tree)
         return self
 
+    def _inline_expression_helpers(self, modname, cls, fn: ast.FunctionDef):
+        """A call to a new helper whose body is one `return <expression>` is replaced by that expression (parameters bound
+        to the arguments) wherever it stands - also inside `and` / `or`, conditional expressions and comprehensions, where a
+        statement-level expansion cannot go. Arguments must be plain (names, attribute paths, constants) or used at most once."""
+        for _round in range(3):
+            changed = False
+            for node in list(ast.walk(fn)):
+                for f_, val in ast.iter_fields(node):
+                    items = val if isinstance(val, list) else [val]
+                    for k, c in enumerate(items):
+                        if not isinstance(c, ast.Call):
+                            continue
+                        t = self._target(modname, cls, fn, c)
+                        if t is None:
+                            continue
+                        qual, h, recv = t
+                        body = [b for b in h.body if not (isinstance(b, ast.Expr) and isinstance(b.value, ast.Constant))]
+                        if len(body) != 1 or not isinstance(body[0], ast.Return) or body[0].value is None:
+                            continue
+                        if any(isinstance(x, (ast.Lambda, ast.ListComp, ast.SetComp, ast.DictComp, ast.GeneratorExp, ast.NamedExpr)) for x in ast.walk(body[0].value)):
+                            continue
+                        is_static = any(ast.unparse(d) == "staticmethod" for d in h.decorator_list)
+                        params = [a.arg for a in h.args.args]
+                        defaults = [None] * (len(params) - len(h.args.defaults)) + list(h.args.defaults)
+                        binding: Dict[str, ast.expr] = {}
+                        pos_params = params
+                        if recv is not None and not is_static:
+                            if not params:
+                                continue
+                            binding[params[0]] = recv
+                            pos_params, defaults = params[1:], defaults[1:]
+                        if len(c.args) > len(pos_params):
+                            continue
+                        for p_, a_ in zip(pos_params, c.args):
+                            binding[p_] = a_
+                        bad = False
+                        for kw in c.keywords:
+                            if kw.arg in binding or kw.arg not in pos_params + [a.arg for a in h.args.kwonlyargs]:
+                                bad = True
+                            else:
+                                binding[kw.arg] = kw.value
+                        for p_, d_ in list(zip(pos_params, defaults)) + list(zip([a.arg for a in h.args.kwonlyargs], h.args.kw_defaults)):
+                            if p_ not in binding:
+                                if d_ is None:
+                                    bad = True
+                                else:
+                                    binding[p_] = d_
+                        if bad:
+                            continue
+                        uses = {}
+                        for x in ast.walk(body[0].value):
+                            if isinstance(x, ast.Name) and isinstance(x.ctx, ast.Load):
+                                uses[x.id] = uses.get(x.id, 0) + 1
+                        if any(not (isinstance(a_, (ast.Name, ast.Constant)) or (isinstance(a_, ast.Attribute) and _pure_path(a_))) and uses.get(p_, 0) > 1 for p_, a_ in binding.items()):
+                            continue
+                        try:
+                            new = _Renamer({p_: _clone(a_) for p_, a_ in binding.items()}).visit(_clone(body[0].value))
+                        except _Unsupported:
+                            continue
+                        for x in ast.walk(new):
+                            ast.copy_location(x, c)
+                        if isinstance(val, list):
+                            val[k] = new
+                        else:
+                            setattr(node, f_, new)
+                        self.expanded_into.setdefault(qual, set()).add(self._current)
+                        changed = True
+            if not changed:
+                break
+
     def _do_function(self, modname, cls, fn: ast.FunctionDef):
         self._current = f"{modname}:{cls.name}.{fn.name}" if cls is not None else f"{modname}:{fn.name}"
+        self._inline_expression_helpers(modname, cls, fn)
         self._rewrite_block(modname, cls, fn, fn.body, _locals_of(fn), 0, "return")
 
 
